@@ -35,6 +35,9 @@ class CombiningQuery(ASTNode):
     def get_string(self, *args, **kwargs):
         left_str = str(self.left)
         right_str = str(self.right)
+        if isinstance(self.right, CombiningQuery) and not self.right.parentheses:
+            # set operations are read from left to right: one on the right-hand side was written in brackets
+            right_str = f'({right_str})'
         keyword = self.operation
         if not self.unique:
             keyword += ' ALL'
